@@ -21,9 +21,10 @@ RULE = ("2-4-d fields with distinct integer data, anisotropic counts and dyadic 
         "compared on every returned object. non-trivial = k mod 4 != 0 and at least two cells along one rotated axis")
 TRUSTED = ["harness/c12.py, harness/tcommon.py + driver JSON glue", "np.rot90 modelled by its flip/transpose definition"]
 ASSUMPTIONS = ["float cos/sin(k*pi/2) within 2^-50 of the exact integers (2^-36 relative bound on values, 2^-40 on corners)"]
-UNPROVED = ["bc letters under composed turns: rotBc(rotBc bc k) l = rotBc bc (k+l) is proved only for the non-periodic conditions (mesh_inverse / mesh_compose_copy carry a PlainBc clause); for periodic bc the composed meshes are proved equal on region, counts and subregions only",
-            "field-level composition is proved on the arrays (field_compose_arrays, any reference points) and as k then -k on the whole field (field_inverse); the mesh of a field turned by k then l vs k+l is covered by mesh_compose_copy only when all three constructor calls are accepted",
-            "vector values after k then -k are proved equal to the original only for values in which the two mapped components are distinct positions inside the value (hypothesis of rotVec_compose); the model does not tie len(value) to nvdim"]
+UNPROVED = ["periodic direction turned onto an axis with a multi-character name: the code leaves bc unchanged (open finding D57); the theorems state the exact condition - both axis names single characters (periodic_directions_turn) - and the failure otherwise (rotBc leaves bc alone for every k: periodic_direction_lost_multichar, d57_witness); nothing is proved about what bc 'should' become there",
+            "in-place Mesh.rotate90 assigns bc through the bc setter (str.lower + check), the model assigns the swapped string directly: equal for well-formed bc (BcWf: bc lower-case and checked, single-character dimension names lower-case) by rotBc_lowercase / rotBc_keeps_bcOk; meshes whose single-character dimension names are upper-case are outside every bc theorem (there the real in-place call raises after having turned region, subregions and n - reported witness)",
+            "fields after k then l vs k+l are proved equal on mesh, labels, mapping, unit and entry by entry on every index of the shape (field_compose, field_compose_values); equality of the arrays as total functions outside the shape is not claimed, and four successive quarter turns of a FIELD are not stated as one theorem (they follow from rotate_mod4 + field_compose + field_turn_zero only up to that in-range equality)",
+            "the value invariant FldVInv (len(value) = nvdim = len(vdims), mapping keys unique) is a hypothesis of field_inverse_values / field_compose_values, proved preserved by every step (value_invariant_kept) but established for freshly constructed fields by the constructor only on the real code (observed), not in the model; Fld.rDim takes the first pair mapping onto an axis, Python's reversed dict the last - equal unless two components map to the same axis (never generated)"]
 BUDGET = {"quick": 90, "thorough": 900}
 
 
